@@ -2,6 +2,7 @@ import Check.C17
 import Check.C06
 import Check.C07
 import Check.C08
+import Check.C19
 /-! upfcheck: `upfcheck <property> <trace>` replays every case of the trace through the Lean model
 and the property oracle. Prints one line per problem (first 25 of each kind) and a summary. -/
 open Check
@@ -12,6 +13,7 @@ def checker (prop : String) : Option (Nat → String → Verdict) :=
   | "C06" => some C06.check
   | "C07" => some C07.check
   | "C08" => some C08.check
+  | "C19" => some C19.check
   | _ => none
 
 partial def loop (h : IO.FS.Stream) (f : Nat → String → Verdict) (n ok mm orc bad : Nat) : IO (Nat × Nat × Nat × Nat × Nat) := do
